@@ -1,0 +1,33 @@
+//go:build verif
+
+// Contracts for package lock, checked by /verif/bin/govc (comment-only file).
+package lock
+
+//@ fileprops C13 C11
+
+// the *os.File behind a locked file
+//@ spec fn lfFile(lf ref) ref
+
+//@ func LockedFile.File(recv) (f)
+//@   interface
+//@   pure
+//@   ensures f == lfFile(iref(recv)) && f != nil
+
+//@ func LockedFile.Close(recv) (err)
+//@   interface
+//@   modifies fdOpen
+//@   ensures fdOpen == old(fdOpen)[lfFile(iref(recv)) := false]
+
+// OpenExclusive / OpenShared: os.OpenFile followed by a non-blocking flock.
+// O_CREATE = 64, O_TRUNC = 512 on linux. Assumption: a failed open leaves the directory as it was
+// (the window in which O_CREATE made a new empty file and flock then failed is ignored).
+//@ func OpenExclusive(path, flag, perm) (lf, err)
+//@   trusted
+//@   modifies fsExists, fsLen, fsWritten, fsSynced, fdOpen, fdPath
+//@   ensures err != nil ==> lf == nil && fsLen == old(fsLen) && fsWritten == old(fsWritten) && fsSynced == old(fsSynced) && fdOpen == old(fdOpen)
+//@   ensures err != nil ==> fsExists == old(fsExists)
+//@   ensures err == nil ==> lf != nil && fdOpen[lfFile(iref(lf))] && fdPath[lfFile(iref(lf))] == path
+//@   ensures err == nil ==> fsExists == old(fsExists)[path := true] && fsWritten == old(fsWritten)[path := 0]
+//@   ensures err == nil ==> fsLen == old(fsLen)[path := ite(old(fsExists)[path] && !hasflag(flag, 512), old(fsLen)[path], 0)]
+//@   ensures err == nil ==> fsSynced == old(fsSynced)[path := old(fsSynced)[path] && old(fsExists)[path] && !hasflag(flag, 512)]
+//@   ensures forall p string :: fsLen[p] >= 0
